@@ -1,4 +1,4 @@
-import MpfVerif.Lemmas.BallLedger
+import MpfVerif.Lemmas.BallLedgerHeading
 /-!
 # C04 — ball counts agree with the physical machine and are conserved (PARTIAL: theorems about the ledger protocol)
 
@@ -38,25 +38,38 @@ theorem step_conserves (c : Cfg) (s s' : St) (op : Op) (h : step c s op = some s
     total s'.avail = s'.known ∧ total s'.balls + s'.inflight = s'.known :=
   (step_conserved c s s' op h hc).2
 
-/-- **readiness guard (partial)**: when `ejectStart d t` is enabled towards a device `t` and every ball already fired
-at `t` is registered there as incoming (`heading t ≤ |incoming t|`), then after the coil has fired the balls counted in
-`t` plus all balls heading there still fit: MPF does not fire into a full device.  The hypothesis holds whenever no
-*other* source of `t` is between `ejectStart` and `ballLeft` — in particular when `t` has a single source, because a
-device runs one eject at a time.  What is missing for the unconditional statement is the proof that this hypothesis is
-an invariant of single-source topologies (it relates `heading t` to the phase of `t`'s only source); with two sources it
-is false, see `two_sources_double_fire_witness`. -/
-theorem no_fire_into_full_single_source_partial (c : Cfg) (s s' : St) (d t : Nat)
-    (h : step c s (.ejectStart d t) = some s') (hpf : c.isPf t = false) (ht : t < s.heading.length)
-    (hreg : s.heading.getD t 0 ≤ ((s.incOf t).length : Int)) :
+/-- **readiness guard, single-source topologies**: let `c` be a configuration in which no device ejects into itself and
+every target has at most one source (`Cfg.singleSource`, a decidable predicate on the `eject_targets` edges).  Then in
+*every* state reachable from the initial one by any history of ledger transitions, whenever `ejectStart d t` is enabled
+towards a device `t`, the balls counted in `t` plus all balls MPF has fired at `t` and not yet accounted for — including
+the one being fired now — fit into `t`: MPF never fires into a full device.  The proof carries the invariant
+`heading t = |incoming t| + [source d is between ejectStart and ballLeft]` through all 23 transitions
+(`Lemmas/BallLedgerHeading.lean`); with two sources the invariant is false, see `two_sources_double_fire_witness`. -/
+theorem no_fire_into_full_single_source (c : Cfg) (counts : List Int) (hss : c.singleSource = true) (ops : List Op)
+    (s s' : St) (d t : Nat) (h : run c (initSt c counts) ops = some s) (hpf : c.isPf t = false)
+    (hstep : step c s (.ejectStart d t) = some s') :
     s'.c t + s'.heading.getD t 0 ≤ c.capOf t := by
-  simp only [step] at h
-  split at h
+  simp only [step] at hstep
+  split at hstep
   · rename_i hg
-    simp only [Bool.and_eq_true, decide_eq_true_eq, readyTo, hpf, Bool.false_or] at hg
-    cases h
-    simp only [St.c, getD_bump, ht, and_true, if_true] at hg ⊢
+    simp only [Bool.and_eq_true, decide_eq_true_eq, readyTo, hpf, Bool.false_or, beq_iff_eq, Bool.not_eq_true'] at hg
+    have hd : d < c.n := hg.1.1.1.1.1.1.1
+    have ht : t < c.n := hg.1.1.1.1.1.1.2
+    have he : c.edge d t = true := hg.1.1.1.1.1.2
+    have hph : s.ph d = .waitTarget := hg.1.1.1.1.2
+    have hinv := run_hinv c ops _ s d t hss he hpf hd ht h (init_hinv c counts d t)
+    have heq := hinv.eq
+    have hlen := hinv.lh
+    have hfire : firing s d t = 0 := by simp [firing, hph]
+    cases hstep
+    simp only [St.c, getD_bump, hlen, ht, and_true, if_true] at hg heq ⊢
     omega
-  · simp at h
+  · simp at hstep
+
+/-- the hypothesis is not vacuous: the standard machine (trough → plunger → playfield, lock → playfield) is single-source,
+the D16 topology is not -/
+example : ({ n := 4, pf := [false, false, false, true], cap := [3, 1, 2, 0], maxT := [3, 3, 3, 0],
+             edges := [(0, 1), (1, 3), (2, 3)], missing := 3 } : Cfg).singleSource = true := by decide
 
 /-- the registration happens only when the ball has *left* the source: `ejectStart` does not touch `incoming` -/
 theorem ejectStart_registers_nothing (c : Cfg) (s s' : St) (d t : Nat) (h : step c s (.ejectStart d t) = some s') :
